@@ -112,6 +112,12 @@ type ctlEnd struct {
 	opens         []openRec
 	adds          int
 	up            bool // last operation on this end was "added"
+	// blockFirst: the first OpenMountedStream on this end blocks until its context is cancelled and
+	// then until `unwind` is closed (a stream negotiation that returns late), then fails
+	blockFirst bool
+	calls      int
+	inflight   chan struct{}
+	unwind     chan struct{}
 }
 
 func (l *ctlEnd) GetLinkUUID() uint64            { return l.uuid }
@@ -123,6 +129,16 @@ func (l *ctlEnd) GetRemotePeer() peer.ID         { return l.remote }
 // OpenMountedStream opens a stream on the link: the far end is handed to the other node through
 // the handler its controller yields for a HandleMountedStream directive.
 func (l *ctlEnd) OpenMountedStream(ctx context.Context, pid protocol.ID, _ stream.OpenOpts) (link.MountedStream, error) {
+	l.mu.Lock()
+	l.calls++
+	first := l.blockFirst && l.calls == 1
+	l.mu.Unlock()
+	if first {
+		close(l.inflight)
+		<-ctx.Done()
+		<-l.unwind
+		return nil, ctx.Err()
+	}
 	a, b := newPipe()
 	mine := &fakeMStream{strm: a, remote: l.remote, lnk: l, proto: pid}
 	far := &fakeMStream{strm: b, remote: l.local, lnk: l.other, proto: pid}
@@ -410,4 +426,115 @@ func countAdds(ps *recPS, tpl pubsub.PeerLinkTuple, initiator bool, ms link.Moun
 		}
 	}
 	return n
+}
+
+// c29CtlBlockedOpen: the opener's stream negotiation is in flight (OpenMountedStream blocked) when
+// the link value is withdrawn and reported again; the cancelled negotiation returns late — before
+// or after the controller has looked at the re-reported link. Stated directly: the link is up on
+// both nodes at the end, so exactly one end has opened the pubsub stream and handed it to its router.
+func (e *engine) c29CtlBlockedOpen() {
+	rng := e.rng
+	for sc := 0; sc < 3*e.a.Scale; sc++ {
+		ka, kb := newKey(rng).id, newKey(rng).id
+		if ka.String() > kb.String() {
+			ka, kb = kb, ka
+		}
+		X, Y := newCtlNode("X", []peer.ID{ka}), newCtlNode("Y", []peer.ID{kb})
+		uuid := uint64(9000 + sc)
+		l := &ctlLink{uuid: uuid}
+		l.x = &ctlEnd{uuid: uuid, node: X, peerN: Y, local: ka, remote: kb, blockFirst: true, inflight: make(chan struct{}), unwind: make(chan struct{})}
+		l.y = &ctlEnd{uuid: uuid, node: Y, peerN: X, local: kb, remote: ka}
+		l.x.other, l.y.other = l.y, l.x
+		lateUnwind := sc%3 != 1  // the cancelled negotiation returns after the controller handled the re-report
+		extraRemove := sc%3 == 2 // ... withdrawn and reported a second time
+		var hist []string
+		add := func(end *ctlEnd, vid uint32) {
+			end.adds++
+			end.up = true
+			end.node.estH.HandleValueAdded(nil, directive.NewAttachedValue(vid, end))
+			hist = append(hist, fmt.Sprintf("add:%s", end.node.name))
+		}
+		remove := func(end *ctlEnd, vid uint32) {
+			end.up = false
+			end.node.estH.HandleValueRemoved(nil, directive.NewAttachedValue(vid, end))
+			hist = append(hist, fmt.Sprintf("remove:%s", end.node.name))
+		}
+		incEmpty := func(n *ctlNode) bool { inc, _ := n.c.VerifLinkTable(); return inc == 0 }
+		add(l.y, 1)
+		add(l.x, 2)
+		select {
+		case <-l.x.inflight:
+		case <-time.After(10 * time.Second):
+			panic("the opener did not call OpenMountedStream")
+		}
+		hist = append(hist, "open-in-flight")
+		remove(l.x, 2)
+		if !lateUnwind {
+			close(l.x.unwind)
+			hist = append(hist, "open-returned")
+			waitFor(5*time.Second, X.idle)
+		}
+		add(l.x, 3)
+		if !waitFor(5*time.Second, func() bool { return incEmpty(X) }) {
+			panic("the controller did not look at the re-reported link")
+		}
+		if extraRemove {
+			remove(l.x, 3)
+			add(l.x, 4)
+			waitFor(5*time.Second, func() bool { return incEmpty(X) })
+		}
+		if lateUnwind {
+			close(l.x.unwind)
+			hist = append(hist, "open-returned")
+		}
+		if !waitFor(5*time.Second, X.idle) || !waitFor(5*time.Second, Y.idle) {
+			panic("pubsub controller did not become idle")
+		}
+		// a tracker started for the re-report has opened by the time the table is empty
+		l.x.mu.Lock()
+		ox := len(l.x.opens)
+		var got []string
+		for range l.x.opens {
+			got = append(got, fmt.Sprint(uuid))
+		}
+		l.x.mu.Unlock()
+		l.y.mu.Lock()
+		oy := len(l.y.opens)
+		l.y.mu.Unlock()
+		mon := ""
+		tplX := pubsub.PeerLinkTuple{PeerID: kb, LinkID: uuid}
+		nAdd := 0
+		X.ps.mu.Lock()
+		for _, a := range X.ps.added {
+			if a.tpl == tplX && a.initiator {
+				nAdd++
+			}
+		}
+		X.ps.mu.Unlock()
+		switch {
+		case ox == 0 && oy == 0:
+			mon = fmt.Sprintf("NEITHER end opened the pubsub stream on link %d although both nodes hold the link (the opener's first stream negotiation was in flight when the link was withdrawn and reported again; history %s)", uuid, strings.Join(hist, ","))
+		case ox > 0 && oy > 0:
+			mon = fmt.Sprintf("BOTH ends opened the pubsub stream on link %d", uuid)
+		case nAdd == 0:
+			mon = fmt.Sprintf("the stream opened on link %d was never handed to the router", uuid)
+		}
+		ev := fmt.Sprintf("added:%d:%s:%s", uuid, lib.Hex([]byte(ka)), lib.Hex([]byte(kb)))
+		rm := fmt.Sprintf("removed:%d:%s:%s", uuid, lib.Hex([]byte(ka)), lib.Hex([]byte(kb)))
+		evs := []string{ev, "loop", rm, ev, "loop"}
+		if extraRemove {
+			evs = append(evs, rm, ev, "loop")
+		}
+		evs = append(evs, "track:0")
+		op := "pubsub.ctl evs=" + strings.Join(evs, ",") + " #blocked-open " + strings.Join(hist, ",")
+		model := e.m.Query(op)
+		impl := "ok opened=" + plusOr(got) + " inc=0 tracked=0"
+		if extraRemove && ox == 2 {
+			// the tracker of the first re-report may or may not have opened before it was cancelled
+			impl = "ok opened=" + fmt.Sprint(uuid) + " inc=0 tracked=0"
+		}
+		e.rep.Compare(op, model, impl, "ctl.blocked-open", "pubsub.ctl:blocked-open", mon)
+		X.stop()
+		Y.stop()
+	}
 }
